@@ -9,7 +9,7 @@ from ..cfg import calls_at
 from ..core import Checker
 from ..loader import AnalysisError, Func, norm, parent, walk_expr, walk_own
 from ..prov import ELEM, ITEM, call_name, expand1, get_arg, is_marker, scope_of
-from .build_common import node_of, rows_appended, same_object_pair, zip_columns
+from .build_common import node_of, parallel_columns, rows_appended, same_object_pair, zip_columns
 from .C07 import _check_verify, const_int
 from .C13 import _algo
 
@@ -107,6 +107,17 @@ def pair_relation(ck: Checker, fn: Func, g, n, c: ast.Call) -> Tuple[bool, str]:
             return True, f"paths/oids are columns {ip}/{io} of zip(*{norm(rows_expr)}) whose rows pair an object's path with its own oid"
         # migration rows: results of the self-keyed worker
         return _migration_rows(ck, fn, g, defn, rows_expr, ip, io)
+    # G. parallel columns of keyed containers, always appended together
+    pc = parallel_columns(ck, fn, g, n, p, o)
+    if pc is not None:
+        return pc
+    # H. oids computed from the paths themselves: [hashes[path]....value for path in paths]
+    if isinstance(p, ast.Name):
+        for alt in o_alts:
+            if isinstance(alt, ast.ListComp) and len(alt.generators) == 1 and not alt.generators[0].ifs and isinstance(alt.generators[0].iter, ast.Name) and alt.generators[0].iter.id == p.id and isinstance(alt.generators[0].target, ast.Name):
+                t, et = alt.generators[0].target.id, norm(alt.elt)
+                if f"[{t}]" in et and et.endswith(".value"):
+                    return True, f"oids are looked up per path from the hash mapping: {norm(alt)}"
     # C. keys / values of one path-keyed dict
     def dict_side(e):
         inner = e
